@@ -475,7 +475,9 @@ func checkC15(c *Ctx, w *World) {
 	}
 
 	// ---- C15.notify
-	var gs, nt, wf *ssa.Call
+	// protocol: every WaitForStateChange(ctx, s) waits on a state s read by GetState() on the same connection and already
+	// passed to notify on every path from that read to the wait (so no transition can be missed), inside the one loop
+	var gss, nts, wfs []*ssa.Call
 	eachInstr(g.monitor, func(in ssa.Instruction) {
 		call, ok := in.(*ssa.Call)
 		if !ok {
@@ -484,21 +486,39 @@ func checkC15(c *Ctx, w *World) {
 		n := calleeOf(&call.Call).Name()
 		switch {
 		case strings.HasSuffix(n, "grpc.(*ClientConn).GetState"):
-			gs = call
+			gss = append(gss, call)
 		case isCallTo(call, g.notify, p):
-			nt = call
+			nts = append(nts, call)
 		case strings.HasSuffix(n, "grpc.(*ClientConn).WaitForStateChange"):
-			wf = call
+			wfs = append(wfs, call)
 		}
 	})
-	okMon := gs != nil && nt != nil && wf != nil
-	if okMon {
-		okMon = nt.Call.Args[1] == ssa.Value(gs) && wf.Call.Args[2] == ssa.Value(gs) && wf.Call.Args[1] == ssa.Value(g.monitor.Params[1]) &&
-			dominatesInstr(gs, nt) && dominatesInstr(nt, wf) && inLoop(nt) && len(loopsOf(g.monitor)) == 1
-		// same connection for both
-		f1, b1, _ := loadedField(gs.Call.Args[0])
-		f2, b2, _ := loadedField(wf.Call.Args[0])
-		okMon = okMon && f1 == "monitoredConn.conn" && f2 == f1 && b1 == b2 && b1 == ssa.Value(g.monitor.Params[0])
+	ownConn := func(v ssa.Value) bool {
+		f, b, ok := loadedField(v)
+		return ok && f == "monitoredConn.conn" && b == ssa.Value(g.monitor.Params[0])
+	}
+	okMon := len(gss) > 0 && len(nts) > 0 && len(wfs) > 0 && len(loopsOf(g.monitor)) == 1
+	for _, wf := range wfs {
+		if !inLoop(wf) || wf.Call.Args[1] != ssa.Value(g.monitor.Params[1]) || !ownConn(wf.Call.Args[0]) {
+			okMon = false
+		}
+		for _, o := range origins(wf.Call.Args[2]) {
+			gs, isGS := o.Val.(*ssa.Call)
+			if !isGS || !strings.HasSuffix(calleeOf(&gs.Call).Name(), "grpc.(*ClientConn).GetState") || !ownConn(gs.Call.Args[0]) {
+				okMon = false
+				continue
+			}
+			// notified between the read and the wait, on every path
+			notified := false
+			for _, nt := range nts {
+				if nt.Call.Args[1] == ssa.Value(gs) && nt.Call.Args[0] == ssa.Value(g.monitor.Params[0]) && dominatesInstr(gs, nt) && !reachesAvoiding(gs, wf, nt) {
+					notified = true
+				}
+			}
+			if !notified {
+				okMon = false
+			}
+		}
 	}
 	c.check(okMon, "C15.notify", "monitor loop", p.pos(g.monitor.Pos()), "each iteration reads the pool's state, notifies it, then waits for a change from exactly that state (no transition can be missed)", "the monitor can miss a state change (does not notify the state it subsequently waits on)")
 	// notify: every MultiEndpoint, under the read lock, with state == Ready for its own endpoint
@@ -537,4 +557,31 @@ func isCallTo(v ssa.Value, target *ssa.Function, p *Prog) bool {
 		}
 	}
 	return false
+}
+
+// reachesAvoiding: some path from just after `from` reaches `to` without executing `avoid`.
+func reachesAvoiding(from, to, avoid ssa.Instruction) bool {
+	seen := map[*ssa.BasicBlock]bool{}
+	var scan func(b *ssa.BasicBlock, start int) bool
+	scan = func(b *ssa.BasicBlock, start int) bool {
+		for i := start; i < len(b.Instrs); i++ {
+			if b.Instrs[i] == avoid {
+				return false
+			}
+			if b.Instrs[i] == to {
+				return true
+			}
+		}
+		for _, s := range b.Succs {
+			if seen[s] {
+				continue
+			}
+			seen[s] = true
+			if scan(s, 0) {
+				return true
+			}
+		}
+		return false
+	}
+	return scan(from.Block(), instrIndex(from)+1)
 }
